@@ -67,10 +67,8 @@ pub fn group_shares(serialized_shares: &str, epoch: &str) -> Option<String> {
   // 1. deserialize shares into Vec<Share>
   let shares: Vec<Share> = serialized_shares
     .split('\n')
-    .map(|chunk| {
-      Share::from_bytes(&BASE64_STANDARD.decode(chunk).unwrap()).unwrap()
-    })
-    .collect();
+    .map(|chunk| Share::from_bytes(&BASE64_STANDARD.decode(chunk).ok()?))
+    .collect::<Option<Vec<Share>>>()?;
 
   // 2. call recover(shares)
   let res = share_recover(&shares);
